@@ -85,6 +85,18 @@ def check_integer_results(rep, facts, und):
         if is_const(v) and type(v[1]) is int:
             rep.ok('R11.1.integer', 'constant integer result', nontrivial=False)
             continue
+        inner_evals = IS.find_all(v, lambda t: t[0] == 'call' and t[1] == 'eval')
+        bare_v = v
+        while bare_v[0] == 'res':
+            bare_v = bare_v[3]
+        if inner_evals and not (bare_v[0] == 'call' and bare_v[1] == 'eval'):
+            # something is done to the value between eval() and the return (int(..), round(..), a mask): whatever the test says
+            # about the transformed value, the expression's own value was never required to be an integer
+            rep.fail(Finding('R11.1.integer', 'Arithmetic.eval', val[2],
+                             'the value of the expression is transformed before it is returned ({}): a non-integer result (7/2, 2047.9) is turned into an integer '
+                             'instead of being refused'.format(show(bare_v)[:60]), line=val[2].lineno),
+                     instance='the returned value is the value eval() produced')
+            continue
         if exact_int_guard(v, p.conds):
             rep.ok('R11.1.integer', 'evaluated result is returned only after the exact-int test')
         elif v[0] == 'call' and v[1] == 'eval':
@@ -197,6 +209,19 @@ def check_constants_pass(rep, facts, pipe, und):
         return t[0] == 'call' and t[1] == 'is_int' and len(t[2]) == 1 and t[2][0] in name_syms and pol is True
     # refusals that depend on the constant's name (a raise reached under a condition that mentions it)
     raise_nodes = {id(p.end_node) for p in raises if any(any(IS.contains(t, s_) for s_ in name_syms) for t, _, _ in p.conds)}
+    # a refusal that depends on the *value* the expression evaluated to: a constant is an integer of any size (64-bit data
+    # directives take them, intermediate values are scaled down again), so refusing some of them changes what programs mean
+    for p in raises:
+        evalv = [e[1] for e in p.events if e[0] == 'value' and e[1][0] == 'mcall' and e[1][2] == 'eval' and e[1][1][0] == 'attr' and e[1][1][1] == item]
+        if not evalv:
+            continue
+        for t, pol, nd in p.conds:
+            if any(IS.contains(t, ev_) for ev_ in evalv) and t[0] in ('cmp', 'bool'):
+                rep.fail(Finding('R11.2.value', 'resolve_constants', nd if nd is not None else loop,
+                                 'a constant definition is refused depending on the value of its expression ({}): a constant is the integer its expression evaluates '
+                                 'to, of any magnitude'.format(show(t)[:80]), line=getattr(nd, 'lineno', loop.lineno)),
+                         instance='no constant is refused because of its value')
+                break
     has_shadow = any(positive(p, shadows) for p in raises)
     has_numeric = any(positive(p, numeric) for p in raises)
     explained = {id(p.end_node) for p in raises if positive(p, shadows) or positive(p, numeric)}
